@@ -201,6 +201,74 @@ func c11Scenarios(tier string) []*world.Scenario {
 			}
 		}
 	}
+	// two fragments of one request on ONE node connection, answered in one read: the first with a redirect, the second with
+	// an error (and the other way round); afterwards requests to the redirect's target and to the node itself
+	for _, kind := range []string{"mget", "del", "mset"} {
+		for _, order := range []string{"redirect-first", "error-first"} {
+			for _, rd := range []string{"moved", "ask"} {
+				ka, ka2 := keyWith("k", 0, 0), keyWith("k", 0, 1)
+				if order == "error-first" {
+					ka, ka2 = ka2, ka
+				}
+				// fragments are written in slot order of the map walk (ascending under the harness): make sure which is first
+				first, second := ka, ka2
+				if world.SpecSlot([]byte(first)) > world.SpecSlot([]byte(second)) {
+					first, second = second, first
+				}
+				redirKey, errKey := first, second
+				if order == "error-first" {
+					redirKey, errKey = second, first
+				}
+				var r Req
+				switch kind {
+				case "mget":
+					r = MGetReq(first, second)
+				case "del":
+					r = DelReq(first, second)
+				default:
+					r = MSetReq(first, "v", second, "w")
+				}
+				e := c11Errors[3]
+				f1, f2, f3 := GetReq(keysB[3]), GetReq(keysA[4]), GetReq(keysB[4])
+				f1.Expect = []byte(c11Errors[1]) // the target node answers this one with an error of its own: verbatim
+				cs := ClientOf([]Req{r, f1, f2, f3}, false)
+				for j := 1; j < len(cs.Chunks); j++ {
+					cs.Chunks[j].WaitReplies = j
+				}
+				sc := &world.Scenario{Nodes: T3m(), Bound: 2, Horizon: 300, Family: "redirect-and-error-in-one-read", CoalesceAll: true, ReadCap: 256, WriteCap: 256}
+				sc.Clients = []world.ClientSpec{cs}
+				kb3 := keysB[3]
+				sc.Reply = func(w *world.World, bc *world.BConn, args [][]byte) ([]byte, int) {
+					switch {
+					case bc.Addr == AddrA && hasKey(args, redirKey) && world.Lower(args[0]) == kind:
+						if rd == "moved" {
+							return movedTo(world.SpecSlot([]byte(redirKey)), AddrB), 0
+						}
+						return askTo(world.SpecSlot([]byte(redirKey)), AddrB), 0
+					case bc.Addr == AddrA && hasKey(args, errKey) && world.Lower(args[0]) == kind:
+						return []byte(e), 0
+					case hasKey(args, kb3) && world.Lower(args[0]) == "get":
+						return []byte(c11Errors[1]), 0
+					}
+					return nil, 0
+				}
+				sc.CrashSig = kind + "-fragment-error-panics"
+				sc.Name = fmt.Sprintf("C11/%s/two-fragments-one-connection/%s-%s/d2", kind, order, rd)
+				sc.Check = func(w *world.World) []world.Violation {
+					vs := CheckStreams(w, StreamOpts{AnyError: func(ci, j int) bool { return j == 0 }})
+					for i := range vs {
+						if vs[i].Sig == "missing-tail" {
+							vs[i].Sig = "later-request-unanswered-after-" + kind + "-error"
+						} else {
+							vs[i].Sig = "single-key-error-altered"
+						}
+					}
+					return vs
+				}
+				out = append(out, sc)
+			}
+		}
+	}
 	// a request timeout is configured: one fragment of a split request is answered with an error (the request fails at
 	// once, its object is recycled), the sibling fragment is never answered; the NEXT request reuses the object and is in
 	// flight when the sibling's deadline passes; its own reply is a backend error that must arrive verbatim
